@@ -437,6 +437,25 @@ theorem mem_of_get {m : NMap ν} {k : Nat} {v : ν} (h : get m k = some v) : (k,
       simp
     · exact List.mem_cons_of_mem _ (ih h)
 
+/-- where the entries of a merge come from -/
+theorem mem_merge {f : ν → ν → ν} {a b : NMap ν} (ha : WF a) (hb : WF b) {p : Nat × ν}
+    (hp : p ∈ merge f a b) :
+    (p ∈ a ∧ get b p.1 = none) ∨ (p ∈ b ∧ get a p.1 = none) ∨
+      ∃ x y, (p.1, x) ∈ a ∧ (p.1, y) ∈ b ∧ p.2 = f x y := by
+  have hg := get_of_mem (wf_merge ha hb) hp
+  rw [get_merge ha hb] at hg
+  cases hga : get a p.1 <;> cases hgb : get b p.1 <;> simp [hga, hgb, optMerge] at hg
+  · right; left
+    refine ⟨?_, rfl⟩
+    have := mem_of_get hgb
+    rw [hg] at this; exact this
+  · left
+    refine ⟨?_, rfl⟩
+    have := mem_of_get hga
+    rw [hg] at this; exact this
+  · right; right
+    exact ⟨_, _, mem_of_get hga, mem_of_get hgb, hg.symm⟩
+
 theorem LB_erase {k k' : Nat} {m : NMap ν} (h : LB k m) : LB k (erase k' m) := by
   induction m with
   | nil => simpa [erase] using h
